@@ -142,6 +142,14 @@ NEEDS = {
     "C11j": "PipeStream on a poll(2) platform, the peer's end disappearing while this side is idle: Stream.poll ignores wake-ups that carry only hang-up/error flags - the end of the stream is never met, the side never closes",
     "C14j": "callback registered after the request is on the wire (fourth independent appearance of the round-1 C08/C13 mechanism)",
     "C17j": "ThreadedServer, a client that resets while in the backlog: getpeername() hoisted out of the try/finally - the serving thread dies before the cleanup, socket and table entry stay",
+    "C03k": "two DISTINCT classes with the same qualified name (class factory, namedtuple() called twice) lent on one connection while the first proxy is alive: proxy cache keyed by (name, instance id) - both classes share one entry",
+    "C10k": "RefCountingColl.add looking the slot up outside the lock (second independent appearance of C03d's mechanism)",
+    "C12k": "the lock holder only PEEKS the head of the queue and pops it after release(): a second sender takes the lock before the pop, transmits the same head again; the double pop raises or removes an unsent message",
+    "C13k": "the received frame kept in a shared connection attribute instead of a local: another thread's receive overwrites the slot between release() and dispatch - one frame is lost, another dispatched twice",
+    "C15k": "two or more callbacks registered before the reply: callbacks drained with pop() - they run once each but in REVERSE registration order",
+    "C16k": "rpyc.lib.compat.PollingPoll: the event mask accumulates over the whole poll() batch - a descriptor listed after a reset connection inherits its error/hang-up flags, ThreadPoolServer drops that (healthy) client",
+    "C18k": "a request with correct magic and a known command whose args slot has no length (5, None): len(args) in a new debug line outside any try ends the serving loop",
+    "C20k": "download with a filter rejecting two entries adjacent in listing order: names pruned with remove() while iterating - the entry after each rejected one is never shown to the filter",
     "C18b": "register, advance the clock, re-register, advance: setdefault never refreshes the time stamp, live server pruned / wrong order",
 }
 
